@@ -313,13 +313,20 @@ struct User {
     sends: Arc<Mutex<Vec<u64>>>,
     unmatched: Arc<Mutex<u32>>,
     start: tokio::time::Instant,
+    fail_from: Option<usize>,
 }
 
 #[async_trait::async_trait]
 impl stun::StunEndpointUser for User {
     type Transport = Tp;
     async fn send_to(&self, _bytes: &[u8], _target: SocketAddr, _transport: &Tp) -> std::io::Result<()> {
-        self.sends.lock().push((tokio::time::Instant::now() - self.start).as_millis() as u64);
+        let mut sends = self.sends.lock();
+        if let Some(k) = self.fail_from {
+            if sends.len() >= k {
+                return Err(std::io::Error::new(std::io::ErrorKind::Other, "mock send failure"));
+            }
+        }
+        sends.push((tokio::time::Instant::now() - self.start).as_millis() as u64);
         Ok(())
     }
     async fn receive(&self, _message: stun::IncomingMessage<Tp>) {
@@ -327,14 +334,18 @@ impl stun::StunEndpointUser for User {
     }
 }
 
-async fn run_cli(case: Vec<String>) -> String {
+pub async fn run_cli(case: Vec<String>) -> String {
     let reliable = case[3] == "1";
     let resp_at: Option<u64> = case[4].parse().ok();
     let wrong_at: Option<u64> = case.get(5).and_then(|s| s.parse().ok());
     let start = tokio::time::Instant::now();
     let sends: Arc<Mutex<Vec<u64>>> = Default::default();
     let unmatched: Arc<Mutex<u32>> = Default::default();
-    let ep = Arc::new(stun::StunEndpoint::new(User { sends: sends.clone(), unmatched: unmatched.clone(), start }));
+    // optional mode: senderr:<k> (the k-th transmission fails), abandon:<ms> (the caller drops the call after ms)
+    let mode = case.get(6).cloned().unwrap_or_default();
+    let fail_from = mode.strip_prefix("senderr:").and_then(|k| k.parse().ok());
+    let abandon: Option<u64> = mode.strip_prefix("abandon:").and_then(|k| k.parse().ok());
+    let ep = Arc::new(stun::StunEndpoint::new(User { sends: sends.clone(), unmatched: unmatched.clone(), start, fail_from }));
     let tsx: u128 = 0x0102030405060708090a0b0c;
     let mut b = MessageBuilder::new(Class::Request, Method::Binding, tsx);
     b.add_attr(&Software::new("probe")).unwrap();
@@ -359,7 +370,14 @@ async fn run_cli(case: Vec<String>) -> String {
         }
     });
     let tp = Tp(reliable);
-    let res = ep.send_request(stun::Request { bytes: &bytes, tsx_id: tsx, transport: &tp }, target).await;
+    let call = ep.send_request(stun::Request { bytes: &bytes, tsx_id: tsx, transport: &tp }, target);
+    let res = match abandon {
+        Some(ms) => match tokio::time::timeout(Duration::from_millis(ms), call).await {
+            Ok(r) => r,
+            Err(_) => Err(std::io::Error::new(std::io::ErrorKind::TimedOut, "abandoned")),
+        },
+        None => call.await,
+    };
     let done = (tokio::time::Instant::now() - start).as_millis() as u64;
     let pending = ep.verif_pending();
     let _ = tokio::time::timeout(Duration::from_secs(200), responder).await;
@@ -367,6 +385,7 @@ async fn run_cli(case: Vec<String>) -> String {
     let r = match res {
         Ok(Some(m)) => format!("response:{:x}", m.tsx_id),
         Ok(None) => "timeout".to_string(),
+        Err(e) if e.kind() == std::io::ErrorKind::TimedOut => "abandoned".to_string(),
         Err(_) => "io-error".to_string(),
     };
     let s: Vec<String> = sends.lock().iter().map(|x| x.to_string()).collect();
